@@ -211,10 +211,18 @@ def b_bytes(ex, x=b'', *a):
         return bytes(x)
     if isinstance(x, Sym):
         raise Unsupported('bytes(symbolic length)')
+    if type(x).__name__ == 'ABuf':
+        # a copy with the same content (buffers are updated functionally: the byte function is never written in place)
+        from .abuf import ABuf
+        return ABuf(ex, x.fn, x.n, False, x.tag)
     raise Unsupported(f'bytes({type(x).__name__})')
 
 
 def b_bytearray(ex, x=b''):
+    x = ex.concretize(x)
+    if type(x).__name__ == 'ABuf':
+        from .abuf import ABuf
+        return ABuf(ex, x.fn, x.n, True, x.tag)
     r = b_bytes(ex, x)
     return SBytes(list(r) if isinstance(r, bytes) else r.items, True)
 
